@@ -217,6 +217,8 @@ pub fn check(c: &Case7, st: &mut Stats) -> CheckResult {
             ensure!((vx > vy) == (want == Some(Ordering::Greater)), "c07:gt", "{} > {} reported {}", rx.text(), ry.text(), vx > vy);
             ensure!((vx <= vy) == matches!(want, Some(Ordering::Less) | Some(Ordering::Equal)), "c07:le", "{} <= {} reported {}", rx.text(), ry.text(), vx <= vy);
             ensure!((vx >= vy) == matches!(want, Some(Ordering::Greater) | Some(Ordering::Equal)), "c07:ge", "{} >= {} reported {}", rx.text(), ry.text(), vx >= vy);
+            ensure!((vx <= vy) == matches!(want, Some(Ordering::Less) | Some(Ordering::Equal)), "c07:le", "{} <= {} reported {}", rx.text(), ry.text(), vx <= vy);
+            ensure!((vx >= vy) == matches!(want, Some(Ordering::Greater) | Some(Ordering::Equal)), "c07:ge", "{} >= {} reported {}", rx.text(), ry.text(), vx >= vy);
             if want.is_some() {
                 ensure!((vx == vy) == (want == Some(Ordering::Equal)), "c07:eq", "{} == {} reported {}", rx.text(), ry.text(), vx == vy);
             }
